@@ -488,14 +488,10 @@ pub fn has_extern(l: &[AI]) -> bool {
     l.iter().any(|a| matches!(a, AI::Extern { .. }))
 }
 
-/// Tags for the repairs that are being landed in /repo (removed once the `fix:` commits are in).
-pub fn pending_tag(l: &[AI]) -> Option<&'static str> {
-    // (the get_qubits repair for SET-/SHIFT-*/SWAP-PHASES landed as 0c58780: no tag any more)
-    if distinct_frames(l) >= 2 {
-        Some("pending-fix-frameset-order")
-    } else {
-        None
-    }
+/// Tags for repairs still pending in /repo.  All three (frameset order 4b509e8, get_qubits frame
+/// arms 0c58780, into_instructions extern order 6ea3a2e) have landed: nothing is tagged any more.
+pub fn pending_tag(_l: &[AI]) -> Option<&'static str> {
+    None
 }
 
 // ---------------------------------------------------------------- generators
